@@ -99,7 +99,9 @@ def args(draw, cmd, full_width=False, all_optional=None):
             a[k] = draw(st.one_of(st.integers(0, 8), fv(5)))
         elif w is not None and not full_width and (k in cmd.size_args or (k == "tl" and bs is not None)):
             unit = bs if (k == "tl" and bs is not None) else (3072 if fam == "readcd" else 1)
-            a[k] = draw(sized(w, unit))
+            # READ CD: the library's decoder re-slices the remaining buffer once per sector (quadratic in the
+            # transfer size): tens of megabytes take minutes to decode, so transfers stay small here
+            a[k] = draw(sized(w, unit, rare_big=(fam != "readcd")))
         elif w is not None:
             a[k] = draw(fv(w))
         elif k == "alloclen":  # READ CAPACITY(10): no CDB field
